@@ -107,17 +107,41 @@ func c14NameOracle(c *vlib.Case) *vlib.Violation {
 	if quoted {
 		form = c14Quote(name)
 	}
+	// the INCLUDE is written in the root file, or (nested) in proj/ab/inner.jst which the root file includes: then only
+	// proj/ab and what lies below it may be touched for it - files of the same name exist one level up
+	nested := c.Params["nested"] == true
 	doc := "JSIGHT 0.3\nINCLUDE " + form + "\n"
+	incFile, incLine, area := filepath.Join(proj, "root.jst"), 2, proj
+	if nested {
+		c14Mu.Lock()
+		_ = os.WriteFile(filepath.Join(proj, "ab", "inner.jst"), []byte("INCLUDE "+form+"\n"), 0o644)
+		c14Mu.Unlock()
+		doc = "JSIGHT 0.3\nINCLUDE ab/inner.jst\n"
+		incFile, incLine, area = filepath.Join(proj, "ab", "inner.jst"), 1, filepath.Join(proj, "ab")
+	}
 	r := c14Build(filepath.Join(proj, "root.jst"), []byte(doc))
 	if r.panicked != "" {
 		return nil // C01's business
 	}
-	what := fmt.Sprintf("INCLUDE %s (name %q): ok=%v msg=%q line=%d accessed=%v", form, name, r.ok, r.msg, r.line, r.accessed)
-	// whatever the parameter says: nothing outside the project is touched
+	if nested {
+		// the access to inner.jst itself is not the subject
+		var rest []string
+		for _, p := range r.accessed {
+			if filepath.Clean(p) != incFile {
+				rest = append(rest, p)
+			}
+		}
+		r.accessed = rest
+	}
+	what := fmt.Sprintf("INCLUDE %s (name %q, nested=%v): ok=%v msg=%q line=%d accessed=%v", form, name, nested, r.ok, r.msg, r.line, r.accessed)
+	// whatever the parameter says: nothing outside the project - and nothing above the directory of the including file - is touched
 	for _, p := range r.accessed {
 		cl := filepath.Clean(p)
 		if !strings.HasPrefix(cl, proj+string(filepath.Separator)) {
 			return vlib.V("c14:access-outside-project", "%s", what)
+		}
+		if !strings.HasPrefix(cl, area+string(filepath.Separator)) {
+			return vlib.V("c14:access-above-the-including-file", "%s", what)
 		}
 	}
 	if c14Refused(name) {
@@ -126,13 +150,13 @@ func c14NameOracle(c *vlib.Case) *vlib.Violation {
 			return vlib.V("c14:refused-name-accepted", "%s", what)
 		case len(r.accessed) > 0:
 			return vlib.V("c14:refused-name-reaches-file-system", "%s", what)
-		case r.line != 2 || r.file != filepath.Join(proj, "root.jst"):
+		case r.line != incLine || r.file != incFile:
 			return vlib.V("c14:refusal-not-at-include", "%s", what)
 		}
 		return nil
 	}
 	// allowed by the specification: included, or an error located at the INCLUDE (missing, directory, or over-refusal)
-	if !r.ok && (r.line != 2 || r.file != filepath.Join(proj, "root.jst")) {
+	if !r.ok && (r.line != incLine || r.file != incFile) {
 		// an error inside the included file is fine (e.g. duplicate type): it must then lie in the project
 		if strings.HasPrefix(r.file, proj+string(filepath.Separator)) && len(r.accessed) > 0 {
 			return nil
@@ -153,6 +177,9 @@ func c14NameClassify(c *vlib.Case) (bool, []string) {
 	}
 	if q, _ := c.Params["quoted"].(bool); q {
 		cls = append(cls, "quoted")
+	}
+	if c.Params["nested"] == true {
+		cls = append(cls, "include-written-in-a-subdirectory")
 	}
 	return strings.ContainsAny(name, "./\\"), cls
 }
@@ -187,7 +214,7 @@ var c14RandomNames = &vlib.Check{
 		if quoted && strings.ContainsAny(name, "\r\n\x00") {
 			return nil
 		}
-		return &vlib.Case{Project: vlib.SingleFile([]byte(name)), Params: map[string]any{"name": name, "quoted": quoted}}
+		return &vlib.Case{Project: vlib.SingleFile([]byte(name)), Params: map[string]any{"name": name, "quoted": quoted, "nested": vlib.Chance(r, 1, 2)}}
 	},
 }
 
@@ -195,6 +222,15 @@ var c14RandomNames = &vlib.Check{
 
 // Graph case: Params "edges": [[targets of file 0 (= root)], [targets of file 1], ...]; file i is "f<i>.jst" (root = root.jst);
 // every file contributes one response with code 200+i before its includes, so the flattening is visible in the catalog.
+// c14EmptyLeaves: when set, the files that include nothing (other than the root) are zero-length files: they contribute
+// nothing, and nothing about them may disturb the INCLUDEs that follow.  Set from the case before the oracle / classifier
+// look at the graph (one case at a time per process).
+var c14EmptyLeaves bool
+
+func c14IsEmptyLeaf(edges [][]int, i int) bool {
+	return c14EmptyLeaves && i > 0 && len(edges[i]) == 0
+}
+
 func c14GraphProject(edges [][]int) *vlib.Project {
 	p := &vlib.Project{Root: "root.jst", Files: map[string][]byte{}, Dirs: []string{"."}} // always on disk
 	name := func(i int) string {
@@ -208,7 +244,9 @@ func c14GraphProject(edges [][]int) *vlib.Project {
 		if i == 0 {
 			sb.WriteString("JSIGHT 0.3\nGET /a\n")
 		}
-		fmt.Fprintf(&sb, "  %d any\n", 200+i)
+		if !c14IsEmptyLeaf(edges, i) {
+			fmt.Fprintf(&sb, "  %d any\n", 200+i)
+		}
 		for _, t := range out {
 			fmt.Fprintf(&sb, "  INCLUDE %s\n", name(t))
 		}
@@ -245,7 +283,9 @@ func c14Flatten(edges [][]int, limit int) (cyclic bool, codes []int, tooBig bool
 			return true
 		}
 		onStack[i] = true
-		codes = append(codes, 200+i)
+		if !c14IsEmptyLeaf(edges, i) {
+			codes = append(codes, 200+i)
+		}
 		if len(codes) > limit {
 			tooBig = true
 			onStack[i] = false
@@ -298,6 +338,7 @@ func c14OnCycle(edges [][]int, i int) bool {
 
 func c14GraphOracle(c *vlib.Case) *vlib.Violation {
 	edges := c14Edges(c)
+	c14EmptyLeaves = c.Params["empty_leaves"] == true
 	p := c14GraphProject(edges)
 	if c.Project != nil {
 		p.RootSpelling, p.ViaPath = c.Project.RootSpelling, c.Project.ViaPath
@@ -380,6 +421,7 @@ func c14GraphOracle(c *vlib.Case) *vlib.Violation {
 
 func c14GraphClassify(c *vlib.Case) (bool, []string) {
 	edges := c14Edges(c)
+	c14EmptyLeaves = c.Params["empty_leaves"] == true
 	cyclic, codes, _ := c14Flatten(edges, 3000)
 	cls := []string{"acyclic"}
 	nt := false
@@ -404,6 +446,7 @@ func c14GraphClassify(c *vlib.Case) (bool, []string) {
 }
 
 func c14GraphCase(edges [][]int) *vlib.Case {
+	c14EmptyLeaves = false
 	raw := make([]any, len(edges))
 	for i, row := range edges {
 		rr := make([]any, len(row))
@@ -440,6 +483,11 @@ var c14RandomGraphs = &vlib.Check{
 			}
 		}
 		c := c14GraphCase(edges)
+		if vlib.Chance(r, 1, 3) {
+			c.Params["empty_leaves"] = true
+			c14EmptyLeaves = true
+			c.Project = c14GraphProject(edges)
+		}
 		c.Project.RootSpelling = vlib.Pick(r, c14Spellings)
 		c.Project.ViaPath = vlib.Chance(r, 1, 2)
 		return c
@@ -577,9 +625,9 @@ func TestC14(t *testing.T) {
 						x /= len(sigma)
 					}
 					name := string(b)
-					quoted := form == 1
+					quoted, nested := form&1 == 1, form&2 == 2
 					form++
-					if form == 2 {
+					if form == 4 {
 						form = 0
 						n++
 					}
@@ -587,11 +635,11 @@ func TestC14(t *testing.T) {
 						continue
 					}
 					total++
-					return &vlib.Case{Project: vlib.SingleFile(b), Params: map[string]any{"name": name, "quoted": quoted}}
+					return &vlib.Case{Project: vlib.SingleFile(b), Params: map[string]any{"name": name, "quoted": quoted, "nested": nested}}
 				}
 			})
 			if done {
-				ev.Exhaustive(fmt.Sprintf("INCLUDE parameter strings over {a,b,.,/,\\} up to length %d, bare and quoted", maxLen), true)
+				ev.Exhaustive(fmt.Sprintf("INCLUDE parameter strings over {a,b,.,/,\\} up to length %d, bare and quoted, written in the root file and in a file of a sub-directory", maxLen), true)
 			}
 			ev.Extra("enumerated_names", total)
 		})
@@ -640,6 +688,11 @@ func TestC14(t *testing.T) {
 				}
 				i++
 				c := c14GraphCase(cases[i-1])
+				if i%3 == 0 {
+					c.Params["empty_leaves"] = true
+					c14EmptyLeaves = true
+					c.Project = c14GraphProject(cases[i-1])
+				}
 				// the root file's path is written in four ways in turn (clean, dir/./root, dir//root, dir/sub/../root)
 				c.Project.RootSpelling = c14Spellings[i%len(c14Spellings)]
 				return c
